@@ -67,6 +67,12 @@ pub(crate) fn advance_millis_past(ms: u64) {
     LAST_MILLIS.fetch_max(ms, Ordering::AcqRel);
 }
 
+/// Forget the last file-name timestamp, as a new process would.
+#[cfg(walrus_verif)]
+pub(crate) fn verif_reset_last_millis() {
+    LAST_MILLIS.store(0, Ordering::SeqCst);
+}
+
 pub(crate) fn now_millis_str() -> String {
     let system_ms = SystemTime::now()
         .duration_since(SystemTime::UNIX_EPOCH)
